@@ -626,6 +626,90 @@ func C18(c *core.Ctx) {
 		}
 	}
 	c.Floor("R2", c.Counts["R2"], 2, "queue operations examined")
+	netlinkClientOwnership(c, "R3")
+}
+
+// netlinkClientOwnership: the periodic server's queries run on their own netlink connection. A reply
+// handler pushed on a connection is popped by whoever finishes first (nl.Client.Do), so two goroutines
+// sharing one connection can steal each other's reply and leave the other waiting forever.  In the
+// functions that serve both goroutines (selected by their `ps` flag) the client handed to every netlink
+// request must be the one selected by the flag: (event-loop client when !ps, periodic client when ps).
+func netlinkClientOwnership(c *core.Ctx, rule string) {
+	p := c.P
+	clientF, psF := p.Field(pkgFwd, "Gtp5g", "client"), p.Field(pkgFwd, "Gtp5g", "psClient")
+	if clientF == nil || psF == nil {
+		c.Anchor(rule, "forwarder.Gtp5g.{client,psClient}")
+		return
+	}
+	n := 0
+	for _, fn := range p.OwnFuncs() {
+		if core.FnPkg(fn).Path() != pkgFwd {
+			continue
+		}
+		usesPs := len(fieldLoads(fn, psF)) > 0
+		k := 0
+		core.Instrs(fn, func(in ssa.Instruction) {
+			ci, ok := in.(ssa.CallInstruction)
+			if !ok {
+				return
+			}
+			f := core.Callee(ci)
+			if f == nil || f.Pkg() == nil || f.Pkg().Path() != core.PkgGtp5gnl || len(ci.Common().Args) == 0 {
+				return
+			}
+			cl := ci.Common().Args[0]
+			if pt, ok := cl.Type().(*types.Pointer); !ok || !strings.HasSuffix(pt.Elem().String(), "go-gtp5gnl.Client") {
+				return
+			}
+			if !usesPs {
+				// single-goroutine function: must use the event loop's client
+				if _, f2, ok := core.LoadedField(cl); ok && f2 == psF {
+					c.Check(rule, "client-owner:"+core.FnName(fn), ci.Pos(), false, "a rule operation of the event loop is issued on the periodic server's netlink connection")
+				}
+				return
+			}
+			n++
+			k++
+			good := false
+			if ph, ok := cl.(*ssa.Phi); ok && len(ph.Edges) == 2 {
+				var sawClient, sawPs bool
+				for i, e := range ph.Edges {
+					_, f2, ok := core.LoadedField(e)
+					if !ok {
+						continue
+					}
+					pred := ph.Block().Preds[i]
+					switch f2 {
+					case psF:
+						// this edge is taken only when the flag parameter is true
+						for _, par := range fn.Params {
+							if core.KnownAt(pred, par, true) {
+								sawPs = true
+							}
+						}
+					case clientF:
+						sawClient = true
+					}
+				}
+				good = sawClient && sawPs
+			}
+			c.Check(rule, fmt.Sprintf("client-selected-by-flag:%s#%d", core.FnName(fn), k), ci.Pos(), good,
+				"the netlink request uses the connection selected by the ps flag (periodic queries never run on the event loop's connection)")
+		})
+	}
+	c.Floor(rule, n, 3, "netlink requests in functions shared by the event loop and the periodic server")
+}
+
+func fieldLoads(fn *ssa.Function, f *types.Var) []*ssa.UnOp {
+	var out []*ssa.UnOp
+	core.Instrs(fn, func(in ssa.Instruction) {
+		if u, ok := in.(*ssa.UnOp); ok && u.Op == token.MUL {
+			if fa, ok := u.X.(*ssa.FieldAddr); ok && core.FieldOfAddr(fa) == f {
+				out = append(out, u)
+			}
+		}
+	})
+	return out
 }
 
 func cycleKey(cyc []waitEdge, short func(string) string) string {
